@@ -10,13 +10,19 @@ def run(ctx, res):
     structural.c04(ctx, res)
     # keys that were drained must not come back: a `&mut`-holding draining iterator has to detach in its constructor (C17's rule)
     structural.c17(ctx, res)
+    # "across every table reallocation": entries are only ever relocated by the crate itself (which re-files and relinks them)
+    structural.no_bucket_relocation(ctx, res, "C04")
     # shared necessary conditions: a rejected insertion must not have removed the old value (C10 atomicity); the duplicate leaves
-    # before anything is evicted (C03); reallocation keeps every entry (C13 transparency)
+    # before anything is evicted and a mutated entry cannot evict itself (C03 ordering); reallocation keeps every entry (C13
+    # transparency); a failing mutate removes exactly the mutated key, a mutate of an absent key nothing (C11).  Evicting more than
+    # necessary or mis-recording a size is *not* C04's business: evicted keys may vanish.
     d = e3.run(ctx)
     for rec in d["records"]:
         if (rec["prop"] == "C10" and rec["key"].endswith(":atomic")) or (rec["prop"] == "C03" and "dedupe-before-eviction" in rec["key"]) or \
                 (rec["prop"] == "C13" and rec["key"].endswith(":transparent")) or \
-                (rec["prop"] in ("C03", "C11") and rec["key"].startswith("mutate:")):
+                (rec["prop"] == "C03" and rec["key"].startswith("mutate:promote-before-eviction")) or \
+                (rec["prop"] == "C11" and rec["key"].startswith("mutate:exit[") and
+                 rec["key"].split(":")[-1] in ("only-that-entry-removed", "size-released", "absent-noop")):
             res.count("C04 shared E3 obligations")
             res.oblige(rec["desc"], rec["ok"], detail=rec.get("detail"), key="C04.E3:%s" % rec["key"], loc=rec["loc"],
                        rule="E3 abstract interpretation", msg="not proved: %s" % rec["desc"])
